@@ -25,7 +25,7 @@ HEAP = "3g"            # the state spaces are small; a modest heap keeps the che
 TLC_WORKERS = int(os.environ.get("VERIF_TLC_WORKERS", "0")) or None
 PROCS = int(os.environ.get("VERIF_PROCS", "0")) or None
 
-CONST_KEYS = ("Dev", "Mode", "MaxNodes", "MaxGraphs", "MaxDepth", "MaxSlots", "MaxIO", "MaxNodeIO", "MaxInits", "Irvs", "WithFunc", "EmitOn")
+CONST_KEYS = ("Dev", "Mode", "MaxNodes", "MaxGraphs", "MaxDepth", "MaxSlots", "MaxIO", "MaxNodeIO", "MaxInits", "Irvs", "WithFunc", "EmitOn", "MaxAnn")
 
 
 def write_cfg(ctx, base_cfg: str, name: str, **consts) -> str:
